@@ -9,6 +9,7 @@ CONSTANTS
   DropWhenFull = TRUE
   Requeue = TRUE
   AtomicSwap = TRUE
+  EarlyExit = FALSE
   CtxInOpen = TRUE
 INVARIANTS TypeOK P_X08_Subsequence
 CHECK_DEADLOCK FALSE
